@@ -411,6 +411,18 @@ def generate(rng, tier, i):
                   "deltas": [rng.choice([0.0, 0.5, 1.0, -3600.0, 86400.0 * 365])]},
         "faults": faults,
     }
+    if rng.random() < 0.12:
+        # the caller changes one of ITS OWN column variables in place between two saves
+        n = rng.randrange(1, 6)
+        cols = [["ip.c%d" % k, gen_col(rng, n)] for k in range(rng.randrange(1, 4))]
+        k = rng.randrange(len(cols))
+        row = rng.randrange(n)
+        new_col = gen_col(rng, n)
+        while new_col["t"] != cols[k][1]["t"]:
+            new_col = gen_col(rng, n)
+        scn["inplace"] = {"cols": cols, "col": k, "row": row,
+                          "new": {kk: (vv[row] if isinstance(vv, list) else vv) for kk, vv in new_col.items()},
+                          "via": rng.choice(["same_block", "block_copy", "builder"])}
     n_saves = sum(o["op"] in ("save", "save_blocks") for o in ops)
     if n_saves >= 2 and rng.random() < 0.25:
         # a second caller saves another (earlier saved) object between two lines of this save
@@ -822,6 +834,8 @@ class CifEngine(Engine):
                             kind="op_raised", op=o, exc=exc.name)
                 return
             ctx.log("op", o, "ok")
+        if scn.get("inplace") and not ctx.violations:
+            self._inplace_history(scn, ctx, cif, sc)
         ctx.sim_time_span_s += seams.CLOCK.span_s()
         ctx.count("saves", n_saves)
         for h in self._hz:
@@ -941,6 +955,62 @@ class CifEngine(Engine):
                             kind="retry_failed")
             else:
                 self._judge(ctx, self._text(scn, sink), exp2, f"save #{n} (retry after disk full)")
+
+    def _inplace_history(self, scn, ctx, cif, sc):
+        """History: write a loop, the caller changes one of its own column variables in place,
+        write again.  Two loops L1, L2 are built from the SAME variables; only L1 is written
+        before the change.  Afterwards L1 (written before) and L2 (never written) must give the
+        same rows: what a loop writes must not depend on whether it has been written before.
+        (Whether a loop holds its columns by reference or by copy is the library's choice; both
+        designs satisfy this, a cache of formatted rows does not.)"""
+        ip = scn["inplace"]
+        variables = {k: self._col(c) for k, c in ip["cols"]}
+        l1 = cif.Loop(dict(variables), comment="")
+        l2 = cif.Loop(dict(variables), comment="")
+        b1 = cif.Block("ip1", [l1])
+        b2 = cif.Block("ip2", [l2])
+
+        def rows(block):
+            sink = seams.SimStringIO(ctx=ctx)
+            _, exc = core.capture(cif.save_cif, sink, block)
+            if exc is not None:
+                return None, exc
+            try:
+                doc = ref_cif.parse(sink.getvalue())
+            except ref_cif.CifSyntaxError as e:
+                return None, core.ExcInfo(e) if hasattr(core, "ExcInfo") else None
+            want = ["_" + k for k, _ in ip["cols"]]
+            loops = [it for it in doc["blocks"][0]["items"] if it[0] == "loop" and list(it[1]) == want]
+            return (loops[0][2] if loops else None), None
+
+        first, exc = rows(b1)
+        if exc is not None or first is None:
+            return  # hazard strings etc. are judged by the main program; nothing to compare
+        key, c = ip["cols"][ip["col"]]
+        new = ip["new"]
+        if c["t"] == "fv":
+            val = sc.scalar(float(new["v"]), variance=float(new["var"]))
+        elif c["t"] == "f":
+            val = sc.scalar(float(new["v"]))
+        elif c["t"] == "i":
+            val = sc.scalar(int(new["v"]), unit=None)
+        else:
+            val = sc.scalar(str(new["v"]))
+        variables[key]["row", ip["row"]] = val  # the caller's own statement, not a library call
+        ctx.log("caller_mutates_column_in_place", key, ip["row"])
+        ctx.probe("caller_changed_own_column_between_saves")
+        writer = {"same_block": lambda: b1, "block_copy": lambda: b1.copy(),
+                  "builder": lambda: cif.Block("ip1", [l1])}[ip["via"]]()
+        again, e1 = rows(writer)
+        fresh, e2 = rows(b2)
+        if e1 is not None or e2 is not None or again is None or fresh is None:
+            return
+        if [[c[1] for c in r] for r in again] != [[c[1] for c in r] for r in fresh]:
+            ctx.violate("value", f"a loop written before and after the caller changed column {key!r} in place "
+                        f"(row {ip['row']}) now writes {[[c[1] for c in r] for r in again]!r}, while an identical loop over the "
+                        f"same variables that is written for the first time writes {[[c[1] for c in r] for r in fresh]!r}",
+                        kind="value:depends_on_earlier_write", hazards=[], found_by="history")
+        ctx.count("inplace_histories_checked")
 
     def _interleaved_save(self, scn, ctx, op, lib, mod, cif, il, n):
         """Two callers: while this save is between two of its lines, another caller saves an
@@ -1266,6 +1336,14 @@ class CifEngine(Engine):
             c = copy.deepcopy(s)
             del c["interleave"]
             yield c
+        if s.get("inplace"):
+            c = copy.deepcopy(s)
+            del c["inplace"]
+            yield c
+            if len(s["ops"]) > 0:
+                c = copy.deepcopy(s)
+                c["ops"] = []
+                yield c
         if s["sink"] != "mem" and s["faults"]["mode"] == "none":
             c = copy.deepcopy(s)
             c["sink"] = "mem"
